@@ -184,6 +184,38 @@ type c16Store struct {
 
 	// scripted control: stage ("doc" | "rev") + key id -> gate; a gate is used once
 	gates map[string]*c16Gate
+
+	// channel epoch per document: a "channel-only update" (no new revision, same revID and cv) bumps it;
+	// the current revision then additionally is in channel "ep-<n>". GetDocument captures the epoch into the
+	// returned Document (RevSeqNo), getRevision/getCurrentVersion serve the channels of the document they
+	// are given - so a load that has read the document before the bump completes with the old channels.
+	epoch map[string]int
+}
+
+func (s *c16Store) bump(docid string) int {
+	s.mu.Lock()
+	defer s.mu.Unlock()
+	if s.epoch == nil {
+		s.epoch = map[string]int{}
+	}
+	s.epoch[docid]++
+	return s.epoch[docid]
+}
+
+func (s *c16Store) curEpoch(docid string) int {
+	s.mu.Lock()
+	defer s.mu.Unlock()
+	return s.epoch[docid]
+}
+
+func c16EpochChannel(e int) string { return fmt.Sprintf("ep-%d", e) }
+
+func c16ChannelsAt(chs []string, e uint64) base.Set {
+	out := c16CopySet(chs)
+	if e > 0 {
+		out[c16EpochChannel(int(e))] = struct{}{}
+	}
+	return out
 }
 
 func (s *c16Store) setGate(stage, id string) *c16Gate {
@@ -261,6 +293,7 @@ func (s *c16Store) GetDocument(ctx context.Context, docid string, unmarshalLevel
 	doc.HLV = &HybridLogicalVector{SourceID: cur.cv.SourceID, Version: cur.cv.Value, CurrentVersionCAS: cur.cv.Value}
 	doc.Deleted = cur.deleted
 	doc.Cas = cur.cv.Value
+	doc.RevSeqNo = uint64(s.curEpoch(docid)) // the channel epoch this read of the "bucket" saw
 	if m.expiry != nil {
 		e := *m.expiry
 		doc.Expiry = &e
@@ -303,7 +336,11 @@ func (s *c16Store) getRevision(ctx context.Context, doc *Document, revid string)
 	for i := range m.revs {
 		if m.revs[i].revID == revid {
 			r := &m.revs[i]
-			return append([]byte(nil), r.body...), r.atts.ShallowCopy(), c16CopySet(r.channels), nil
+			chs := c16CopySet(r.channels)
+			if i == len(m.revs)-1 {
+				chs = c16ChannelsAt(r.channels, doc.RevSeqNo)
+			}
+			return append([]byte(nil), r.body...), r.atts.ShallowCopy(), chs, nil
 		}
 	}
 	atomic.AddInt64(&s.natural, 1)
@@ -320,7 +357,7 @@ func (s *c16Store) getCurrentVersion(ctx context.Context, doc *Document, cv Vers
 	m := s.docs[doc.ID]
 	cur := m.cur()
 	if cur.cv == cv {
-		return append([]byte(nil), cur.body...), cur.atts.ShallowCopy(), c16CopySet(cur.channels), cur.deleted, nil
+		return append([]byte(nil), cur.body...), cur.atts.ShallowCopy(), c16ChannelsAt(cur.channels, doc.RevSeqNo), cur.deleted, nil
 	}
 	if loadBackup {
 		for i := range m.revs {
@@ -433,6 +470,42 @@ func c16NewUniverse(t testing.TB, r *vlib.Rand, nDocs int, withOld bool, tag str
 	return u
 }
 
+// expectAt is the expectation for a key when the document's channel epoch is e (only the current
+// revision's keys depend on it), with the size the cache must account for it.
+func (u *c16Universe) expectAt(id string, e int) (c16View, int64, bool) {
+	v, ok := u.expect[id]
+	if !ok {
+		return v, 0, false
+	}
+	b := u.bytes[id]
+	if k, found := u.keyByID(id); found && e > 0 && (k.Kind == "rev" || k.Kind == "cv") {
+		chs := append(strings.Split(v.Channels, ","), c16EpochChannel(e))
+		sort.Strings(chs)
+		v.Channels = strings.Join(chs, ",")
+		b += int64(len(c16EpochChannel(e)))
+	}
+	return v, b, true
+}
+
+func (u *c16Universe) keyByID(id string) (c16Key, bool) {
+	for _, k := range u.keys {
+		if k.id() == id {
+			return k, true
+		}
+	}
+	return c16Key{}, false
+}
+
+// c16StaleEpoch: got differs from want only in channels, and is exactly the expectation of an earlier epoch.
+func (u *c16Universe) staleEpoch(id string, cur int, got c16View) (int, bool) {
+	for e := cur - 1; e >= 0; e-- {
+		if w, _, ok := u.expectAt(id, e); ok && len(c16Diff(w, got)) == 0 {
+			return e, true
+		}
+	}
+	return 0, false
+}
+
 func (u *c16Universe) key(doc, ver string) (c16Key, bool) {
 	for _, k := range u.keys {
 		if k.Doc == doc && k.Ver == ver {
@@ -453,6 +526,14 @@ func (u *c16Universe) keyOf(di int, kind string) c16Key {
 
 // putRev builds a new, unshared DocumentRevision holding the model content of a current-cv key.
 func (u *c16Universe) putRev(k c16Key) DocumentRevision {
+	out := u.putRevAt(k)
+	if ep := u.store.curEpoch(k.Doc); ep > 0 {
+		out.Channels[c16EpochChannel(ep)] = struct{}{}
+	}
+	return out
+}
+
+func (u *c16Universe) putRevAt(k c16Key) DocumentRevision {
 	e := u.fresh[u.keyOf(k.di, "cv").id()]
 	start, _ := base.ToInt64(e.History[RevisionsStart])
 	ids, _ := GetStringArrayProperty(e.History, RevisionsIds)
@@ -586,15 +667,20 @@ func (cc *c16Cache) quiescent(u *c16Universe) (out []c16Finding, cached int) {
 				add("accounting-state", "cached-value-without-content", fmt.Sprintf("shard %d key %s: bodyBytes nil=%v err=%v after all operations returned", si, id, body == nil, verr))
 				continue
 			}
-			want, known := u.expect[id]
+			curEp := u.store.curEpoch(key.docID)
+			want, wantBytes, known := u.expectAt(id, curEp)
 			if !known {
 				add("content", "unknown-key-cached", fmt.Sprintf("shard %d key %s", si, id))
 				continue
 			}
 			if d := c16Diff(want, c16Render(rev)); len(d) > 0 {
+				if e, stale := u.staleEpoch(id, curEp, c16Render(rev)); stale {
+					add("no-stale-value-after-invalidation", "resident-value-computed-before-the-invalidation", fmt.Sprintf("shard %d key %s: the resident value has the channels of update %d, the store is at update %d and every update was followed by Remove of this key: %+v", si, id, e, curEp, c16Render(rev)))
+					continue
+				}
 				add("content", "resident-value-wrong-"+strings.Join(d, "+"), fmt.Sprintf("shard %d key %s: want %+v got %+v", si, id, want, c16Render(rev)))
 			}
-			if wb := u.bytes[id]; v.itemBytes.Load() != wb {
+			if wb := wantBytes; v.itemBytes.Load() != wb {
 				add("item-bytes", "item-bytes!=size-of-content", fmt.Sprintf("shard %d key %s: itemBytes=%d, content measures %d", si, id, v.itemBytes.Load(), wb))
 			}
 		}
@@ -706,9 +792,25 @@ func c16Partial(want, got c16View, bad []string) bool {
 
 // c16CheckRev judges one returned revision against the expectation of its key.
 func (u *c16Universe) checkRev(k c16Key, rev DocumentRevision) (bad []string, want, got c16View) {
-	want = u.expect[k.id()]
+	want, _, _ = u.expectAt(k.id(), u.store.curEpoch(k.Doc))
 	got = c16RenderSafe(rev)
 	return c16Diff(want, got), want, got
+}
+
+// checkRevRange judges a revision returned by an operation that was in flight while the document's channel
+// epoch moved from lo to hi: the content of any epoch in [lo,hi] is right; stale = it is exactly the content
+// of an epoch before lo (computed before an invalidation that preceded the operation).
+func (u *c16Universe) checkRevRange(k c16Key, rev DocumentRevision, lo, hi int) (bad []string, stale bool, want, got c16View) {
+	got = c16RenderSafe(rev)
+	for e := hi; e >= lo; e-- {
+		want, _, _ = u.expectAt(k.id(), e)
+		if len(c16Diff(want, got)) == 0 {
+			return nil, false, want, got
+		}
+	}
+	want, _, _ = u.expectAt(k.id(), hi)
+	_, stale = u.staleEpoch(k.id(), lo, got)
+	return c16Diff(want, got), stale, want, got
 }
 
 func c16ErrAllowed(k c16Key, err error, failing bool) bool {
